@@ -54,7 +54,7 @@ EXTRA_MODULES = ["css_parser.css.cssstyledeclaration", "css_parser.css.cssrule"]
 # methods of self that do not modify self and do not raise DOM exceptions (util.Base helpers + read-only queries)
 PURE_SELF = {
     "_tokenize2", "_tokensupto2", "_nexttoken", "_type", "_tokenvalue", "_stringtokenvalue", "_uritokenvalue",
-    "_valuestr", "_normalize", "_splitNamespacesOff", "_tempSeq", "_isValidating", "_getUsedNamespaces",
+    "_valuestr", "_normalize", "_normalizeatkeyword", "_splitNamespacesOff", "_tempSeq", "_isValidating", "_getUsedNamespaces",
     "_getUsedUris", "__items", "getProperties", "keys", "__nnames", "item",
 }
 # methods of self that modify self without raising a DOM exception on the values they are given here
